@@ -328,6 +328,18 @@ impl<H: Host> ZXController<H> {
         self.passed_frames = 0;
     }
 
+    /// Applies value of the ULA port 0xFE (border color, mic and ear bits). Bus timings of
+    /// the port write are not a part of it, so it can be used for machine state restoring
+    pub(crate) fn write_fe(&mut self, val: u8) {
+        self.set_border_color(self.frame_clocks, ZXColor::from_bits(val & 0x07));
+        #[cfg(feature = "sound")]
+        {
+            let mic = val & 0x08 != 0;
+            let ear = val & 0x10 != 0;
+            self.mixer.beeper.change_state(ear, mic);
+        }
+    }
+
     pub fn write_7ffd(&mut self, val: u8) {
         if !self.paging_enabled {
             return;
@@ -569,13 +581,7 @@ impl<H: Host> Z80Bus for ZXController<H> {
         } else if port & 0xC002 == 0x8000 {
             self.write_ay_port(data);
         } else if port & 0x0001 == 0 {
-            self.set_border_color(self.frame_clocks, ZXColor::from_bits(data & 0x07));
-            #[cfg(feature = "sound")]
-            {
-                let mic = data & 0x08 != 0;
-                let ear = data & 0x10 != 0;
-                self.mixer.beeper.change_state(ear, mic);
-            }
+            self.write_fe(data);
         } else if (port & 0x8002 == 0) && (self.machine == ZXMachine::Sinclair128K) {
             self.write_7ffd(data);
         }
